@@ -92,6 +92,16 @@ def run(tier, seed):
     ch = [gen.chaos(rng, rng.choice([2, 3])) for _ in range(150 if tier == "quick" else 3000)]
     corecheck.validate(chk, gen.std_cfg(ns=3), gen.STD_TREE, ch, label="chaos")
     corecheck.validate(chk, gen.std_cfg(ns=3, usepool=True, ports=[3001, 3002], srvmax=2, backend="path"), gen.STD_TREE, ch, label="chaos:pool:path")
+    # ABOR delivered 0..6 loop iterations after a transfer command on the executor-style backend (its calls complete one iteration
+    # later, so ABOR can reach a transfer task that has not taken its first step), the data connection made beforehand; then the
+    # session ends: the connection nobody took is closed like everything else
+    ab = []
+    for verb, data in (("STOR n1", [1, 2, 3]), ("RETR f", None), ("LIST", None), ("MLSD d", None), ("APPE f", [7])):
+        for a in range(0, 7 if tier == "quick" else 10):
+            for end in (["send", 1, "QUIT"], ["vanish", 1], ["srvclose"]):
+                ab.append([["connect", 1], ["send", 1, "USER u1"], ["send", 1, "PASS pw1"], ["send", 1, "PASV"], ["dconnect", 1],
+                           ["nq", ["send", 1, verb]], ["iter", a], ["nq", ["send", 1, "ABOR"]], ["tick", 0], ["send", 1, "PWD"], end, ["tick", 0]])
+    corecheck.validate(chk, gen.std_cfg(ns=2, backend="async", block=2), gen.STD_TREE, ab, label="abor-start:async")
     # a server listening on an IPv6 address (PASV opens a listener, answers 503 and ends the session): everything that mentions PASV
     v6 = [s for _, s in fam if "PASV" in repr(s)]
     corecheck.validate(chk, gen.std_cfg(ns=2, usepool=True, ports=[3001, 3002], v6=True), gen.STD_TREE, v6 if tier != "quick" else v6[::3], label="cuts+v6")
